@@ -627,6 +627,100 @@ def rule_dispatch(repo, tier):
         elif last in ('zeros',):
             # result size [mat1.size(0), mat2.size(1)]
             pass
+    # ---- every layout pair reaches a branch that can produce the product (exhaustiveness over {bsr, bsc, csr, csc}^2)
+    LAYOUTS = ('sparse_bsr', 'sparse_bsc', 'sparse_csr', 'sparse_csc')
+
+    def ev(test, lay):
+        """truth value of a dispatcher test for operand layouts lay = {p1: l1, p2: l2}; None = unknown"""
+        if isinstance(test, ast.BoolOp):
+            vals = [ev(v, lay) for v in test.values]
+            if isinstance(test.op, ast.And):
+                return False if any(v is False for v in vals) else (None if any(v is None for v in vals) else True)
+            return True if any(v is True for v in vals) else (None if any(v is None for v in vals) else False)
+        if isinstance(test, ast.UnaryOp) and isinstance(test.op, ast.Not):
+            v = ev(test.operand, lay)
+            return None if v is None else not v
+        if isinstance(test, ast.Call) and dotted(test.func) == 'isinstance':
+            return True
+        if isinstance(test, ast.Compare) and len(test.ops) == 1 and isinstance(test.ops[0], (ast.Eq, ast.NotEq)):
+            l, r = dotted(test.left) or '', dotted(test.comparators[0]) or ''
+            if l.endswith('.layout') and l[:-7] in lay and r.split('.')[-1] in LAYOUTS + ('strided',):
+                eq = lay[l[:-7]] == r.split('.')[-1]
+                return eq if isinstance(test.ops[0], ast.Eq) else not eq
+        if isinstance(test, ast.Attribute) and test.attr.startswith('is_sparse_') and dotted(test.value) in lay:
+            return lay[dotted(test.value)] == 'sparse_' + test.attr[len('is_sparse_'):]
+        return None
+
+    def conv(arg, lay):
+        # layout of an argument expression: p / p.to_sparse_xxx()
+        d = dotted(arg)
+        if d in lay:
+            return lay[d]
+        if isinstance(arg, ast.Call) and isinstance(arg.func, ast.Attribute) and arg.func.attr.startswith('to_sparse_') and dotted(arg.func.value) in lay:
+            return 'sparse_' + arg.func.attr[len('to_sparse_'):]
+        return None
+
+    def run(body, lay, depth=0):
+        """-> (outcome, node): 'helper' | 'addmm-csr' | 'raise' | 'fallthrough' | 'unknown'"""
+        for st in body:
+            if isinstance(st, ast.If):
+                t = ev(st.test, lay)
+                if t is True or t is None:
+                    r = run(st.body, lay, depth)
+                    if r is not None:
+                        return r
+                    if t is True:
+                        continue      # the branch ended without returning: execution goes on after the if (as in the source)
+                if t is False or t is None:
+                    r = run(st.orelse, lay, depth)
+                    if r is not None:
+                        return r
+            elif isinstance(st, ast.Raise):
+                return ('raise', st)
+            elif isinstance(st, ast.Return):
+                v = st.value
+                if isinstance(v, ast.Name):          # `_ret = call(...); return _ret`
+                    from ..expr import inline_straight
+                    v = inline_straight(f.node, upto=st).value(v)
+                if isinstance(v, ast.Call):
+                    nm = (dotted(v.func) or '').split('.')[-1]
+                    if nm == helper.name:
+                        return ('helper', st)
+                    if nm == f.name and depth < 3:
+                        l1, l2 = conv(v.args[0], lay), conv(v.args[1], lay)
+                        if l1 and l2:
+                            return run(f.node.body, {p1: l1, p2: l2}, depth + 1)
+                        return ('unknown', st)
+                    if nm == 'addmm':
+                        both_csr = lay[p1] == lay[p2] == 'sparse_csr'
+                        return ('addmm-csr', st) if both_csr else ('fallthrough', st)
+                return ('unknown', st)
+        return None
+    bad_pairs = {}
+    for l1 in LAYOUTS:
+        for l2 in LAYOUTS:
+            r = run(f.node.body, {p1: l1, p2: l2}) or ('fallthrough', f.node)
+            res.inst({'function': f.fq, 'layout pair': '%s x %s' % (l1[7:], l2[7:]), 'reaches': r[0]}, (f.fq, l1, l2))
+            if r[0] in ('raise', 'fallthrough', 'unknown'):
+                bad_pairs.setdefault((r[0], getattr(r[1], 'lineno', 0)), []).append('%s x %s' % (l1[7:], l2[7:]))
+    for (kind, line), prs in sorted(bad_pairs.items()):
+        res.add(Finding('C10.DISP', f, 'the layout pairs %s have no branch that forms the product: they end in %s (line %d) - torch.addmm / torch.zeros do not accept '
+                        'these layout combinations, so the helper raises instead of returning the dense product' %
+                        (', '.join(prs), {'raise': 'an explicit raise', 'fallthrough': 'the generic addmm fall-through', 'unknown': 'an unrecognised return'}[kind], line),
+                        construct='layout pairs|%s|%s' % (kind, ';'.join(prs))))
+    # `raise NotImplemented` raises TypeError (NotImplemented is not an exception)
+    for n in ast.walk(f.node):
+        if isinstance(n, ast.Raise) and isinstance(n.exc, ast.Name) and n.exc.id == 'NotImplemented':
+            res.add(Finding('C10.DISP', f, '`raise NotImplemented` raises "TypeError: exceptions must derive from BaseException": NotImplemented is a comparison '
+                            'sentinel, the exception is NotImplementedError', node=n, construct='raise NotImplemented'))
+    # a name bound to a 1-tuple by a trailing comma and then used as a tensor argument
+    for n in ast.walk(f.node):
+        if isinstance(n, ast.Assign) and isinstance(n.value, ast.Tuple) and len(n.value.elts) == 1 and len(n.targets) == 1 and isinstance(n.targets[0], ast.Name):
+            nm = n.targets[0].id
+            used = [c for c in paths.calls_in(f.node) if c.lineno > n.lineno and any(isinstance(a, ast.Name) and a.id == nm for a in c.args)]
+            if used:
+                res.add(Finding('C10.DISP', f, '`%s` ends in a comma: `%s` is a 1-tuple, and `%s` receives the tuple where a tensor is required (TypeError)'
+                                % (src(n)[:60], nm, src(used[0])[:50]), node=n, construct='trailing comma|' + norm_construct(n.value, f.node)))
     # size literals
     for n in ast.walk(f.node):
         if isinstance(n, ast.Assign) and isinstance(n.value, ast.List) and len(n.value.elts) == 2:
